@@ -346,6 +346,54 @@ fn main() {
                 }
             }
         }
+        // family 2b (SAMPLED, labelled): back-to-back pairs on one kept-alive connection while the agent's runtime workers
+        // are held a millisecond at a time (a busy machine): the second request is handed to the upstream connection the
+        // moment the first answer has been relayed, whatever state that connection's own task is in
+        let mut b2b = 0u64;
+        {
+            let stop = Arc::new(std::sync::atomic::AtomicBool::new(false));
+            for _ in 0..2 {
+                let stop = stop.clone();
+                w.rt.spawn(async move {
+                    while !stop.load(std::sync::atomic::Ordering::SeqCst) {
+                        std::thread::sleep(Duration::from_micros(700));
+                        tokio::task::yield_now().await;
+                    }
+                });
+            }
+            let rounds = if thorough { 1200 } else { 300 };
+            for r in 0..rounds {
+                sport = if sport >= 39000 { 36000 } else { sport + 1 };
+                let mut c = match w.connect(Some(sport), Some(&rec)) {
+                    Ok(c) => c,
+                    Err(_) => continue,
+                };
+                let first = ReqSpec { method: "PUT", hset: 0, body_len: 1, chunk: None, st: 200, rlen: if r % 2 == 0 { 70000 } else { 1 }, rfr: if r % 3 == 0 { "cl" } else { "ch" }, seg: [0usize, 1, 4096][r % 3] };
+                let second = ReqSpec { method: "GET", hset: 0, body_len: 0, chunk: None, st: 404, rlen: 1, rfr: "cl", seg: 0 };
+                id += 1;
+                let (raw1, t1, b1) = build(&first, id);
+                let id1 = id;
+                id += 1;
+                let (raw2, t2, b2) = build(&second, id);
+                let cur = w.hosts.ws.cursor();
+                let mut both = raw1.clone();
+                both.extend_from_slice(&raw2);
+                let _ = c.send(&both);
+                let r1 = c.read_response(false, Duration::from_secs(20));
+                let r2 = c.read_response(false, Duration::from_secs(20));
+                let got = w.hosts.ws.requests_since(cur);
+                b2b += 1;
+                evals += 2;
+                let at1 = got.iter().find(|(_, m)| qparam(m.target(), "id") == Some(&id1.to_string())).map(|g| &g.1);
+                let at2 = got.iter().find(|(_, m)| qparam(m.target(), "id") == Some(&id.to_string())).map(|g| &g.1);
+                check_pair(&mut res, &first, id1, &t1, &b1, at1, &r1, "back-to-back pair, first request");
+                check_pair(&mut res, &second, id, &t2, &b2, at2, &r2, "back-to-back pair, second request");
+                c.close();
+            }
+            stop.store(true, std::sync::atomic::Ordering::SeqCst);
+            std::thread::sleep(Duration::from_millis(5));
+        }
+        res.cov("back_to_back_pairs_sampled", b2b);
         // family 3: the two signature-exempt uploads (their own code path), every request body framing
         let mut exempt_n = 0u64;
         for (m, t) in [("PUT", "/vmAgentLog"), ("POST", "/machine/?comp=telemetrydata"), ("PUT", "/VMAGENTLOG")] {
@@ -490,7 +538,7 @@ fn main() {
         res.cov("host_dies_mid_answer_requests", aborted_n);
         res.cov("exempt_upload_requests", exempt_n);
         res.cov("pipelines", pipelines);
-        res.cov("rule", format!("one request per fresh attributed connection for the product of 5 methods x {} client header sets (repeated names in three spellings, empty value, punctuation, names resembling the proxy-owned ones, 14 well-known request headers) x {} request body framings (0..102400 bytes, content-length / chunks of 1, 7, 4096 / single chunk) x {} host answers (status 200/204/404/500, body 0/1/70000 bytes covering all byte values, content-length or chunked, TCP segment boundary at 0/1/2/4095/4096/4097), with a key latched and (slice) without; plus {} pipelines of 1-3 back-to-back requests on 1 and 2 concurrent keep-alive connections; plus 30 absolute-form request targets (3 authorities x 5 path/query shapes x 2 methods): path and query unchanged at the host; plus answers cut off by the death of the host at 10 offsets (inside the head, 0/1/3/4000/8197 bytes into the body, 8/5/3/1 bytes before the end) x content-length/chunked x 2 sizes, which must not reach the client as a complete message; plus the two signature-exempt uploads with 9 body framings (0 bytes .. 1 MiB, content-length and chunked) x 2 header sets; the host's answer is a function of the request target and echoes the request id", hsets, req_bodies.len(), resps.len(), pipelines));
+        res.cov("rule", format!("one request per fresh attributed connection for the product of 5 methods x {} client header sets (repeated names in three spellings, empty value, punctuation, names resembling the proxy-owned ones, 14 well-known request headers) x {} request body framings (0..102400 bytes, content-length / chunks of 1, 7, 4096 / single chunk) x {} host answers (status 200/204/404/500, body 0/1/70000 bytes covering all byte values, content-length or chunked, TCP segment boundary at 0/1/2/4095/4096/4097), with a key latched and (slice) without; plus {} pipelines of 1-3 back-to-back requests on 1 and 2 concurrent keep-alive connections; plus a SAMPLED family of 300 (1200) back-to-back request pairs on kept-alive connections while the agent's runtime workers are held 0.7 ms at a time; plus 30 absolute-form request targets (3 authorities x 5 path/query shapes x 2 methods): path and query unchanged at the host; plus answers cut off by the death of the host at 10 offsets (inside the head, 0/1/3/4000/8197 bytes into the body, 8/5/3/1 bytes before the end) x content-length/chunked x 2 sizes, which must not reach the client as a complete message; plus the two signature-exempt uploads with 9 body framings (0 bytes .. 1 MiB, content-length and chunked) x 2 header sets; the host's answer is a function of the request target and echoes the request id", hsets, req_bodies.len(), resps.len(), pipelines));
     } else {
         // ---------------- C15 ----------------
         w.set_key(Some(K1));
